@@ -24,7 +24,7 @@ type c01Witness struct {
 
 func init() {
 	core.Register(&core.Check{
-		ID: "C01",
+		ID:   "C01",
 		Rule: "schemas: every atom (one keyword with each boundary parameterisation), every merge of two atoms into one schema object, each of those wrapped by each of 12 applicator/composition shapes, all ordered atom pairs under the binary compositions, plus PRNG-drawn random trees of depth<=3 (quick) / <=4 (thorough); values: a fixed universe of ~75 JSON values (all six types, nested) plus schema-directed boundary values (bound-1, bound, bound+1, +-0.5, sizes n-1,n,n+1, enum members and near misses, each required key absent), each fed as float64 and as json.Number. A case is distinct by (canonical schema JSON, canonical value JSON) and non-trivial when the reference verdict is decided (not contested) and the schema has at least one assertion keyword.",
 		Assumptions: []string{
 			"the reference evaluator (internal/refeval) is a correct reading of draft-4 / OAS 3.0.3 for the non-contested zone",
@@ -136,6 +136,7 @@ func runC01(c *core.Ctx) {
 var annotations = gen.S{"title": "t", "description": "d", "example": "zzz", "deprecated": true, "x-ext": gen.S{"k": 1.0}, "externalDocs": gen.S{"url": "http://e.x"}}
 
 func c01One(c *core.Ctx, s gen.S, values []any, extra []any, annot bool) {
+	c.BeginLazy(func() string { return "schema=" + gen.Canon(s) })
 	sc, err := kinSchema(s)
 	if err != nil {
 		c.Count("schema_unmarshal_errors", 1)
